@@ -347,8 +347,26 @@ func run(x *h.Ctx, c Case) string {
 	dirA, fargs := prepareDir(c.Files, texts)
 	defer os.RemoveAll(dirA)
 	plain := runCLI(dirA, append(append([]string{}, fargs...), c.Args...), string(c.Stdin), c.Files)
+	if plain.status == -1 {
+		x.Discard("CLI run timed out")
+		return ""
+	}
 	if plain.status == 2 || plain.stderr != "" {
-		x.Discard("program ends with a run-time error or writes to stderr")
+		// the program ends with a run-time error (or writes to stderr): only transparency is decided -- the same
+		// output, exit status and message with coverage on, whether or not a profile gets written
+		dirE, _ := prepareDir(c.Files, texts)
+		defer os.RemoveAll(dirE)
+		eargs := append([]string{"-coverprofile", "cover.out", "-covermode", c.Mode}, fargs...)
+		cov := runCLI(dirE, append(eargs, c.Args...), string(c.Stdin), c.Files)
+		if cov.status == -1 {
+			x.Discard("CLI run timed out")
+			return ""
+		}
+		if cov.stdout != plain.stdout || cov.status != plain.status || cov.stderr != plain.stderr || fmt.Sprint(sortedFiles(cov.files)) != fmt.Sprint(sortedFiles(plain.files)) {
+			return fmt.Sprintf("running with -covermode %s changes the behaviour of a program that ends with an error\nwithout coverage: status=%d stdout=%q stderr=%q files=%q\nwith coverage:    status=%d stdout=%q stderr=%q files=%q\n%s", c.Mode,
+				plain.status, h.Trunc(plain.stdout, 600), plain.stderr, plain.files, cov.status, h.Trunc(cov.stdout, 600), h.Trunc(cov.stderr, 300), cov.files, describe())
+		}
+		x.Class("error-run-transparency-only")
 		return ""
 	}
 	// coverage run
